@@ -63,7 +63,12 @@ CONSTANTS
     Plats,          \* selected platforms explored, subset of {"default", "p1"}
     Sels,           \* selections explored (see the classes below)
     Spells,         \* how the package spells environment names where it defines them: subset of {"lower", "mixed"}
-    Interps,        \* subset of BOOLEAN: is the component an interpreter component
+    Interps,        \* subset of {"absent", "empty", "varempty", "bash"}: what the component says about an interpreter: nothing,
+                    \*   '', a reference to a variable whose value is '', or a real interpreter.  Only the last one makes it
+                    \*   an interpreter component
+    Sels2,          \* selections of a second component c2 (a plain executable) of the same package, used by histories
+    HistLen,        \* 0: packages only; n > 0: every package is followed by every sequence of n environment constructions
+                    \*   (of c or c2) on ONE configuration object
     NamedD, NamedP, \* keys that may be defined in the named environment on default / p1
     PkgD, PkgP,     \* keys that may be defined in the package default environment on default / p1
     Creatable,      \* environments that may exist in this run (subset of EnvIds); they start absent
@@ -79,8 +84,10 @@ CONSTANTS
 
 VARIABLES nm,       \* the name of the named environment (chosen in Init)
           plat, sel, spell, interp, present, keys,
+          sel2,     \* what the second component selects (chosen in Init)
+          hist,     \* the environment constructions made so far on the configuration object, each with its answer
           dl        \* [EnvIds -> sequence of names]: the DEFAULTS list of an environment that has the key DEFAULTS
-vars == <<nm, plat, sel, spell, interp, present, keys, dl>>
+vars == <<nm, plat, sel, spell, interp, present, keys, sel2, hist, dl>>
 
 EnvIds == {"named@default", "named@p1", "pkg@default", "pkg@p1"}
 Keys   == {"BASE", "PATH", "CH", "LD_LIBRARY_PATH", "EMQ", "LIBS", "DEFAULTS"}
@@ -139,13 +146,19 @@ Defined(n) == DefinedOf(present, n)
 Layered(n) == LayeredOf(present, keys, n)
 Sources(n) == {"launch", "system", Id(n, "default")} \cup (IF plat = "p1" THEN {Id(n, "p1")} ELSE {})
 
-BaseOf(pr, ks) ==
-    CASE sel \in NoneSels    -> [ok |-> TRUE, env |-> Empty, launchcopy |-> FALSE, n |-> "-"]
-      [] sel \in DefaultSels -> IF DefinedOf(pr, "pkg") THEN [ok |-> TRUE, env |-> LayeredOf(pr, ks, "pkg"), launchcopy |-> FALSE, n |-> "pkg"]
+(* who = [sel, interp]: the component whose environment is built *)
+IsInterpW(w) == w.interp = "bash"
+Main   == [sel |-> sel, interp |-> interp]
+Second == [sel |-> sel2, interp |-> "absent"]
+IsInterp == IsInterpW(Main)
+BaseOfW(w, pr, ks) ==
+    CASE w.sel \in NoneSels    -> [ok |-> TRUE, env |-> Empty, launchcopy |-> FALSE, n |-> "-"]
+      [] w.sel \in DefaultSels -> IF DefinedOf(pr, "pkg") THEN [ok |-> TRUE, env |-> LayeredOf(pr, ks, "pkg"), launchcopy |-> FALSE, n |-> "pkg"]
                                                         ELSE [ok |-> TRUE, env |-> Launch, launchcopy |-> TRUE, n |-> "-"]
-      [] sel \in NamedSels   -> IF DefinedOf(pr, "named") THEN [ok |-> TRUE, env |-> LayeredOf(pr, ks, "named"), launchcopy |-> FALSE, n |-> "named"]
+      [] w.sel \in NamedSels   -> IF DefinedOf(pr, "named") THEN [ok |-> TRUE, env |-> LayeredOf(pr, ks, "named"), launchcopy |-> FALSE, n |-> "named"]
                                                           ELSE [ok |-> FALSE, env |-> Empty, launchcopy |-> FALSE, n |-> "named"]
       [] OTHER               -> [ok |-> FALSE, env |-> Empty, launchcopy |-> FALSE, n |-> "-"]
+BaseOf(pr, ks) == BaseOfW(Main, pr, ks)
 Base == BaseOf(present, keys)
 
 (* names imported from the launch environment: listed in the (layered) DEFAULTS key and present at launch *)
@@ -153,7 +166,7 @@ Imported(e1) == IF "DEFAULTS" \in DOMAIN e1
                 THEN {e1["DEFAULTS"][i].n : i \in 1..Len(e1["DEFAULTS"])} \cap DOMAIN Launch
                 ELSE {}
 
-Build(env0) ==
+BuildW(w, env0) ==
     LET e1  == Merge(Sys, env0)
         imp == Imported(e1)
         (* an imported name the environment does not define gets the launch value; one it defines may refer to the launch value *)
@@ -163,33 +176,51 @@ Build(env0) ==
         (* keys that are empty at this point do not appear in the result, but references to them still expand to nothing *)
         e3  == TLCEval([k \in {x \in DOMAIN e2 : Len(e2[x]) > 0} |-> Subst(e2[k], e2)])     \* first from the environment itself (all of it)
         e4  == TLCEval([k \in DOMAIN e3 |-> Subst(e3[k], Launch)])      \* then from the launch environment
-        add == IF interp THEN (PathVars \cap DOMAIN Launch) \ DOMAIN e4 ELSE {}
+        add == IF IsInterpW(w) THEN (PathVars \cap DOMAIN Launch) \ DOMAIN e4 ELSE {}
     IN  Merge(TLCEval([k \in add |-> Launch[k]]), e4)
 
-ExpectedOf(pr, ks) == LET B == BaseOf(pr, ks) IN IF B.ok THEN [ok |-> TRUE, env |-> Build(B.env)] ELSE [ok |-> FALSE, env |-> Empty]
+Build(env0) == BuildW(Main, env0)
+ExpectedOfW(w, pr, ks) == LET B == BaseOfW(w, pr, ks) IN IF B.ok THEN [ok |-> TRUE, env |-> BuildW(w, B.env)] ELSE [ok |-> FALSE, env |-> Empty]
+ExpectedOf(pr, ks) == ExpectedOfW(Main, pr, ks)
+ClassOfW(w) == IF w.sel \in NoneSels THEN "none" ELSE IF w.sel \in NamedSels THEN "named" ELSE IF w.sel = "unknown" THEN "unknown"
+               ELSE IF BaseOfW(w, present, keys).launchcopy THEN "default-launch" ELSE "default-pkg"
 Expected == ExpectedOf(present, keys)
 
 ---------------------------------------------------------------------------
 Init == /\ nm \in Names /\ plat \in Plats /\ sel \in Sels /\ spell \in Spells /\ interp \in Interps
+        /\ sel2 \in Sels2 /\ hist = <<>>
         /\ present = {}
         /\ keys = [e \in EnvIds |-> {}]
         /\ dl = [e \in EnvIds |-> <<>>]
 
-Create(e) == /\ e \in Creatable /\ e \notin present
+Create(e) == /\ hist = <<>>
+             /\ e \in Creatable /\ e \notin present
              /\ present' = present \cup {e}
-             /\ UNCHANGED <<nm, plat, sel, spell, interp, keys, dl>>
+             /\ UNCHANGED <<nm, plat, sel, spell, interp, keys, sel2, hist, dl>>
 
-AddKey(e, k) == /\ e \in present /\ k \in Allowed(e) /\ k \notin keys[e] /\ k # "DEFAULTS"
+AddKey(e, k) == /\ hist = <<>>
+                /\ e \in present /\ k \in Allowed(e) /\ k \notin keys[e] /\ k # "DEFAULTS"
                 /\ keys' = [keys EXCEPT ![e] = @ \cup {k}]
-                /\ UNCHANGED <<nm, plat, sel, spell, interp, present, dl>>
+                /\ UNCHANGED <<nm, plat, sel, spell, interp, present, sel2, hist, dl>>
 
 (* the environment gets a DEFAULTS key with the list d (possibly empty) *)
-AddDefaults(e, d) == /\ e \in present /\ "DEFAULTS" \in Allowed(e) /\ "DEFAULTS" \notin keys[e]
+AddDefaults(e, d) == /\ hist = <<>>
+                     /\ e \in present /\ "DEFAULTS" \in Allowed(e) /\ "DEFAULTS" \notin keys[e]
                      /\ keys' = [keys EXCEPT ![e] = @ \cup {"DEFAULTS"}]
                      /\ dl' = [dl EXCEPT ![e] = d]
-                     /\ UNCHANGED <<nm, plat, sel, spell, interp, present>>
+                     /\ UNCHANGED <<nm, plat, sel, spell, interp, present, sel2, hist>>
 
-Next == \/ \E e \in {"named@default", "named@p1", "pkg@default", "pkg@p1"} : Create(e)
+(* Histories: building an environment is a read -- it must not write.  Ask(c) builds the environment of component c   *)
+(* ("c" or the second component "c2") on the one configuration object and records the answer, which is the pure     *)
+(* function ExpectedOfW of the package and the launch environment whatever was built before; the package, and the   *)
+(* system variables of the configuration, are unchanged.                                                            *)
+Who(c) == IF c = "c" THEN Main ELSE Second
+Ask(c) == /\ HistLen > 0 /\ Len(hist) < HistLen
+          /\ hist' = Append(hist, [comp |-> c, class |-> ClassOfW(Who(c)), exp |-> ExpectedOfW(Who(c), present, keys)])
+          /\ UNCHANGED <<nm, plat, sel, spell, interp, present, keys, sel2, dl>>
+
+Next == \/ \E c \in {"c", "c2"} : Ask(c)
+        \/ \E e \in {"named@default", "named@p1", "pkg@default", "pkg@p1"} : Create(e)
         \/ \E e \in {"named@default", "named@p1", "pkg@default", "pkg@p1"},
               k \in {"BASE", "PATH", "CH", "LD_LIBRARY_PATH", "EMQ", "LIBS"} : AddKey(e, k)
         \/ \E e \in {"named@default", "named@p1", "pkg@default", "pkg@p1"}, d \in DLists : AddDefaults(e, d)
@@ -201,14 +232,15 @@ Spec == Init /\ [][Next]_vars
 (* expected environment once per state (AllProps / CheckAndEmit); the zero-argument forms are for reading and for  *)
 (* naming the conjunct that fails.                                                                                 *)
 TypeOK == /\ nm \in Names /\ Names \cap {"none", "environment", ""} = {} /\ Paths \subseteq {"primitive", "replicated"}
-          /\ plat \in {"default", "p1"} /\ sel \in AllSels /\ spell \in {"lower", "mixed"} /\ interp \in BOOLEAN
+          /\ plat \in {"default", "p1"} /\ sel \in AllSels /\ spell \in {"lower", "mixed"}
+          /\ interp \in {"absent", "empty", "varempty", "bash"} /\ sel2 \in AllSels /\ Len(hist) <= HistLen
           /\ present \subseteq EnvIds /\ \A e \in EnvIds : keys[e] \subseteq Keys /\ (e \notin present => keys[e] = {})
           /\ \A e \in EnvIds : /\ \A i \in 1..Len(dl[e]) : dl[e][i] \in DefaultsNames
                                /\ ("DEFAULTS" \notin keys[e] => dl[e] = <<>>)
 
 DeclaredP(B) == IF B.n = "-" THEN {} ELSE DOMAIN Layered(B.n) \ {"DEFAULTS"}
 LegitP(B)    == DOMAIN Sys \cup DeclaredP(B) \cup (IF B.ok THEN Imported(Merge(Sys, B.env)) ELSE {})
-                           \cup (IF interp THEN PathVars ELSE {})
+                           \cup (IF IsInterp THEN PathVars ELSE {})
 
 (* an error exactly when a name is selected that neither the selected nor the default platform defines *)
 ErrorIffP(E, B) == (~E.ok) <=> (sel = "unknown" \/ (sel \in NamedSels /\ ~Defined("named")))
@@ -216,7 +248,7 @@ ErrorIffP(E, B) == (~E.ok) <=> (sel = "unknown" \/ (sel \in NamedSels /\ ~Define
 (* apart from declared keys, imported names and the interpreter's search path nothing of the launch environment appears *)
 NoLeakP(E, B) == (E.ok /\ ~B.launchcopy) => /\ DOMAIN E.env \subseteq LegitP(B)
                                             /\ \A k \in DOMAIN Launch \ LegitP(B) : k \notin DOMAIN E.env
-NoneIsEmptyP(E, B)  == (sel \in NoneSels) => DOMAIN E.env \subseteq DOMAIN Sys \cup (IF interp THEN PathVars ELSE {})
+NoneIsEmptyP(E, B)  == (sel \in NoneSels) => DOMAIN E.env \subseteq DOMAIN Sys \cup (IF IsInterp THEN PathVars ELSE {})
 SystemAlwaysP(E, B) == E.ok => \A k \in DOMAIN Sys : k \in DOMAIN E.env
 
 (* no text of an environment that is not a source for this platform / selection appears in a value *)
@@ -239,7 +271,7 @@ OwnBeforeLaunchP(E, B) == (E.ok /\ B.n # "-" /\ "PATH" \in DeclaredP(B) /\ "BASE
 (* a key the environment clears stays cleared: it is not in the result (unless it is a search path variable of an  *)
 (* interpreter component) and a reference to it never becomes the launch value                                     *)
 ClearedStaysClearedP(E, B) == (E.ok /\ B.n # "-") =>
-                                 /\ \A k \in DeclaredP(B) \cap {"LD_LIBRARY_PATH", "EMQ"} : k \in DOMAIN E.env => (interp /\ k \in PathVars)
+                                 /\ \A k \in DeclaredP(B) \cap {"LD_LIBRARY_PATH", "EMQ"} : k \in DOMAIN E.env => (IsInterp /\ k \in PathVars)
                                  /\ ("LIBS" \in DeclaredP(B) /\ "LD_LIBRARY_PATH" \in DeclaredP(B)) =>
                                         \A i \in 1..Len(E.env["LIBS"]) : E.env["LIBS"][i].t = "lit" => E.env["LIBS"][i].e # "launch"
 ClearedStaysCleared == ClearedStaysClearedP(Expected, Base)
@@ -250,6 +282,11 @@ RelevantIds == LET n == IF sel \in NamedSels THEN "named" ELSE IF sel \in Defaul
                IN IF n = "-" THEN {} ELSE {Id(n, "default")} \cup (IF plat = "p1" THEN {Id(n, "p1")} ELSE {})
 ForeignIrrelevantP(E, B) == E = ExpectedOf(present \cap RelevantIds, [e \in EnvIds |-> IF e \in RelevantIds THEN keys[e] ELSE {}])
 ForeignIrrelevant == ForeignIrrelevantP(Expected, Base)
+
+(* reads do not write: an environment construction leaves the package alone (action property) and every recorded    *)
+(* answer is still the pure function of the package -- it does not depend on what was built before                    *)
+ReadsDoNotWrite == [][hist' # hist => (present' = present /\ keys' = keys /\ dl' = dl)]_vars
+AnswersArePure == \A n \in 1..Len(hist) : hist[n].exp = ExpectedOfW(Who(hist[n].comp), present, keys)
 
 AllPropsP(E, B) == /\ ErrorIffP(E, B) /\ NoLeakP(E, B) /\ NoneIsEmptyP(E, B) /\ SystemAlwaysP(E, B)
                    /\ NoForeignTextP(E, B) /\ PlatformOverDefaultP(E, B) /\ OwnBeforeLaunchP(E, B)
@@ -264,7 +301,8 @@ PlatformOverDefault == PlatformOverDefaultP(Expected, Base)
 OwnBeforeLaunch     == OwnBeforeLaunchP(Expected, Base)
 
 ---------------------------------------------------------------------------
-CaseP(E, B) == [family |-> Family, name |-> nm, paths |-> Paths, plat |-> plat, sel |-> sel, spell |-> spell, interp |-> interp,
+CaseP(E, B) == [family |-> Family, name |-> nm, paths |-> Paths, plat |-> plat, sel |-> sel, spell |-> spell, interp |-> interp, isinterp |-> IsInterp,
+                sel2 |-> sel2, hist |-> hist,
                 envs |-> [e \in present |-> EnvFn(e)],
                 launch |-> Launch, sys |-> Sys,
                 class |-> (IF sel \in NoneSels THEN "none" ELSE IF sel \in NamedSels THEN "named" ELSE IF sel = "unknown" THEN "unknown"
@@ -274,5 +312,5 @@ CaseP(E, B) == [family |-> Family, name |-> nm, paths |-> Paths, plat |-> plat, 
 (* all properties and the emission of the state for the conformance driver, with Expected computed once *)
 CheckAndEmit == LET E == Expected
                     B == Base
-                IN AllPropsP(E, B) /\ (Emit => PrintT(ToJson(CaseP(E, B))))
+                IN AllPropsP(E, B) /\ AnswersArePure /\ ((Emit /\ Len(hist) = HistLen) => PrintT(ToJson(CaseP(E, B))))
 =============================================================================
